@@ -465,10 +465,83 @@ fn all_ids(c: &Crate) -> BTreeSet<u32> {
 fn random_id_map(c: &Crate, regime: u64, rng: &mut Rng) -> HashMap<u32, u32> {
     let ids: Vec<u32> = all_ids(c).into_iter().collect();
     let n = ids.len() as u64;
-    // three regimes: a permutation of the ids in use; a sparse range; the whole u32 range incl. its ends
+    // four regimes: a permutation of the ids in use; a sparse range; the whole u32 range incl. its ends; special ids on chosen kinds
     let mut used = BTreeSet::new();
     let mut map = HashMap::new();
     match regime {
+        3 => {
+            // the special-looking ids 0 / 1 / u32::MAX go to items of a chosen KIND (a `paths` entry of another crate, a local
+            // `paths` entry, an index item), everything else keeps its number: a random permutation of thousands of ids
+            // almost never puts id 0 on, say, the summary of a type from another crate
+            // of the summaries of other crates' types, those of crux crates (the ones whose crate the CLI may have to load)
+            let all_external: Vec<u32> = c.paths.iter().filter(|(_, s)| s.crate_id != 0).map(|(k, _)| k.0).collect();
+            let crux_external: Vec<u32> = c
+                .paths
+                .iter()
+                .filter(|(_, s)| s.crate_id != 0 && s.path.first().is_some_and(|p| p.starts_with("crux_")))
+                .map(|(k, _)| k.0)
+                .collect();
+            // ... and, most of the time, only those a field of a local item refers to (the types whose crate has to be followed)
+            let mut in_fields: BTreeSet<u32> = BTreeSet::new();
+            fn ids_in_value(v: &Value, out: &mut BTreeSet<u32>) {
+                match v {
+                    Value::Object(m) => {
+                        for (k, x) in m {
+                            if k == "id" {
+                                if let Some(n) = x.as_u64() {
+                                    out.insert(n as u32);
+                                }
+                            }
+                            ids_in_value(x, out);
+                        }
+                    }
+                    Value::Array(a) => a.iter().for_each(|x| ids_in_value(x, out)),
+                    _ => {}
+                }
+            }
+            for it in c.index.values() {
+                if let ItemEnum::StructField(ty) = &it.inner {
+                    ids_in_value(&serde_json::to_value(ty).unwrap_or(Value::Null), &mut in_fields);
+                }
+            }
+            let field_external: Vec<u32> = crux_external.iter().copied().filter(|i| in_fields.contains(i)).collect();
+            let external = if !field_external.is_empty() && rng.chance(2, 3) {
+                field_external
+            } else if crux_external.is_empty() || rng.chance(1, 4) {
+                all_external
+            } else {
+                crux_external
+            };
+            let local: Vec<u32> = c.paths.iter().filter(|(_, s)| s.crate_id == 0).map(|(k, _)| k.0).collect();
+            let index: Vec<u32> = c.index.keys().map(|k| k.0).collect();
+            let mut pools = [external, local, index];
+            for p in pools.iter_mut() {
+                p.sort_unstable();
+            }
+            for a in &ids {
+                map.insert(*a, *a);
+            }
+            for special in [0u32, 1, u32::MAX] {
+                // id 0 goes to a summary of another crate's type two times out of three
+                let which = if special == 0 && rng.chance(2, 3) { 0 } else { rng.below(3) as usize };
+                let pool = &pools[which];
+                let pool = if pool.is_empty() { &ids } else { pool };
+                let x = *rng.pick(pool);
+                if map[&x] != x || x == special {
+                    continue;
+                }
+                // swap x and `special` (if `special` is not in use, x simply moves there)
+                if let Some(&cur) = map.get(&special) {
+                    if cur != special {
+                        continue;
+                    }
+                    map.insert(special, x);
+                } else {
+                    // `special` is not in use: x simply moves there
+                }
+                map.insert(x, special);
+            }
+        }
         0 => {
             let mut tgt = ids.clone();
             for i in (1..tgt.len()).rev() {
@@ -659,8 +732,9 @@ fn build(fixture: &str, variant: &Variant) -> Option<Built> {
     names.extend(dep_order);
     let mut crates = HashMap::new();
     for (k, n) in names.iter().enumerate() {
-        // the renumbering regime cycles with the seed and the crate, so that a few seeds cover all three for every crate
-        crates.insert(n.clone(), transform(original(fixture, n)?, renum, shuf, (seed + k as u64) % 3, &mut rng));
+        // the renumbering regime cycles with the seed and the crate, so that a few seeds cover all three for every crate;
+        // seeds from 2^40 upwards select the fourth regime (special ids on chosen kinds of items)
+        crates.insert(n.clone(), transform(original(fixture, n)?, renum, shuf, if seed >= (1u64 << 40) { 3 } else { (seed + k as u64) % 3 }, &mut rng));
     }
     Some(Built { names, crates, forced, seed: rng.next() })
 }
@@ -1241,11 +1315,16 @@ fn par_map<T: Send + Sync, R: Send>(items: &[T], f: impl Fn(&T) -> R + Sync) -> 
 
 fn gen(seed: u64, n: u64, all_orders: bool) {
     let mut rng = Rng::new(seed);
+    let mut rng4 = Rng::new(seed ^ 0x4E20);
     let mut jobs: Vec<(String, Variant)> = vec![];
     for f in FIXTURES {
         jobs.push((f.to_string(), Variant::Id));
         for _ in 0..n {
             jobs.push((f.to_string(), Variant::Renum(rng.below(1 << 40))));
+        }
+        // fourth regime (ids 0 / 1 / u32::MAX on summaries of other crates' types, local summaries, index items)
+        for _ in 0..n / 2 + 1 {
+            jobs.push((f.to_string(), Variant::Renum((1u64 << 40) + rng4.below(1 << 30))));
         }
         for _ in 0..n / 2 {
             jobs.push((f.to_string(), Variant::Shuf(rng.below(1 << 40))));
